@@ -176,6 +176,14 @@ func genC16Schemas(r *rng, o c16Opts) ast.Schemas {
 				f.Comments = []string{"bounded"}
 				addField(s, on, f)
 			}
+			if o.veneers && r.chance(35) {
+				// three levels of inline structs ending in a reference to a struct object: paths of 3 and 4
+				// segments (slices built by successive appends have spare capacity exactly at length 3)
+				leaf := ast.NewRef(s.Package, pick(r, structObjectNames(s)))
+				inner := ast.NewStruct(ast.NewStructField("leaf", leaf), ast.NewStructField("v", ast.String()))
+				mid := ast.NewStruct(ast.NewStructField("inner", inner), ast.NewStructField("w", ast.NewScalar(ast.KindInt64)))
+				addField(s, on, ast.NewStructField("nest", mid))
+			}
 			if o.veneers {
 				if r.chance(50) {
 					addField(s, on, ast.NewStructField(pick(r, []string{"tags", "Tags", "entries", "s"}), ast.NewArray(pick(r, []ast.Type{ast.String(), ast.NewScalar(ast.KindInt64)}))))
